@@ -1779,6 +1779,11 @@ class IterLocal:
         if box is None:
             return None
         ok = any(mentions(box, lambda x, n=n: x[0] == "call" and x[1] == n) for n in loops)
+        if not ok and ev.kind == "tblwrite" and ev.get("op") in ("remove", "insert", "remove_entry", "get_mut", "entry") and len(ev.get("args") or ()) >= 2:
+            # a keyed write into one fixed table, keyed by the element being visited (`own.remove(link, n)` for each
+            # `link` of a snapshot): every key is touched once, whatever the order
+            key = ev.args[1]
+            ok = any(mentions(key, lambda x, n=n: x[0] == "call" and x[1] == n) for n in loops)
         if not ok:
             eng.violate("ITER-2", "non-element-write-in-hash-ordered-loop:%s" % ev.kind, "inside a loop over a hash-ordered collection the library performs `%s` on %s, which is not the element being visited: the result depends on the visiting order" % (ev.kind, show(box)[:80]), ev.b, st)
         return None
